@@ -76,6 +76,19 @@ Theorem C10_records_keyed : forall ops t, table_ok t -> table_ok (rec_run t ops)
 Proof. exact rec_run_ok. Qed.
 Print Assumptions C10_records_keyed.
 
+(* and no record gets a negative stake: the handlers refuse negative amounts (/repo 48c76fc) and
+   HandleUnstake refuses a negative result (/repo e681066; before that fix a record could go
+   negative and EndBlock exited the node — findings C10.negative_power_record /
+   C10.zero_total_power, fixed) *)
+Theorem C10_records_nonnegative : forall ops t, Forall op_nonneg ops -> stakes_nonneg t ->
+  stakes_nonneg (rec_run t ops).
+Proof. exact rec_run_nonneg. Qed.
+Print Assumptions C10_records_nonnegative.
+
+Example C10_unstake_more_than_record_refused :
+  rec_run [mkc 6%N 6%N 488 488] [RUnstake 6%N 495] = [mkc 6%N 6%N 488 488].
+Proof. vm_compute. reflexivity. Qed.
+
 (* C10_accepted for reachable tables.  The candidate table of each block is the table the record
    operations of the previous blocks left (starting from a genesis table t0 whose records are
    keyed by the address of their key — the genesis loader calls HandleStake without the handler's
